@@ -30,7 +30,7 @@ SHAPE_SHIFT = dict(module="SpatialId.Props.Tie.ShiftFn", function="GetShiftingSp
 
 PROPS = {
     "C01": dict(
-        modules=["SpatialId.Props.C01", "SpatialId.Props.C01X", "SpatialId.Props.C02Centre", "SpatialId.Props.Facts.Point"],
+        modules=["SpatialId.Props.C01", "SpatialId.Props.C01X", "SpatialId.Lemmas.F64Err", "SpatialId.Props.C02Centre", "SpatialId.Props.Facts.Point"],
         families=[("newpt", 10000, 80000), ("points", 30000, 250000), ("f64", 20000, 200000)],
         trusted_base=COMMON_TB + F64_TB,
         assumptions=["multiplication/division by 2^k is modelled as exponent adjustment (IEEE 754 exactness)"],
@@ -106,7 +106,7 @@ PROPS = {
     ),
     "C03": dict(
         modules=["SpatialId.Props.C03", "SpatialId.Props.Tie.Shift", "SpatialId.Props.Tie.HZoom", "SpatialId.Props.Facts.Zoom", "SpatialId.Props.Tie.VZoom"],
-        families=[("chgExt", 12000, 60000), ("chgSp", 6000, 40000), ("axis", 12000, 100000), ("axisLattice", 1, 1)],
+        families=[("chgbig", 4, 40), ("chgExt", 12000, 60000), ("chgSp", 6000, 40000), ("axis", 12000, 100000), ("axisLattice", 1, 1)],
         trusted_base=COMMON_TB,
         assumptions=["int64(math.Pow(2, n)) is exact for 0 <= n <= 62"],
         claim="Theorems (Props/C03.lean over Spec/Region.lean, voxels as subsets of R^3): the zoom-change result is "
@@ -292,7 +292,7 @@ PROPS = {
     ),
     "C16": dict(
         modules=["SpatialId.Props.C16"],
-        families=[("det_chgExt", 1500, 8000), ("det_chgSp", 800, 5000), ("det_mrgExt", 800, 5000), ("det_mrgSp", 500, 3000),
+        families=[("chgbig", 3, 30), ("det_chgExt", 1500, 8000), ("det_chgSp", 800, 5000), ("det_mrgExt", 800, 5000), ("det_mrgSp", 500, 3000),
                   ("det_nN", 600, 4000), ("det_ovEA", 1500, 8000), ("det_ovSA", 1500, 8000), ("det_tiles", 500, 3000),
                   ("det_qv", 800, 4000), ("points", 3000, 30000), ("det_sets", 3000, 20000), ("corridordet", 60, 400)],
         trusted_base=COMMON_TB + ["Go map iteration order only permutes de-duplicated results (the models fix one order; "
@@ -361,7 +361,7 @@ PROPS = {
         technique="Lean 4 theorem over a regenerated global-state table + race-detector differential run",
     ),
     "C20": dict(
-        modules=["SpatialId.Props.C20", "SpatialId.Props.C20Vec", "SpatialId.Props.C20Err", "SpatialId.Props.Facts.Quat"],
+        modules=["SpatialId.Props.C20", "SpatialId.Props.C20Vec", "SpatialId.Props.C20Err", "SpatialId.Lemmas.F64Congr", "SpatialId.Props.Facts.Quat"],
         families=[("objset", 3000, 30000), ("sets", 30000, 200000), ("ashift", 20000, 200000), ("combLattice", 1, 1), ("vec", 30000, 300000),
                   ("vecnum", 20000, 200000)],
         trusted_base=COMMON_TB + F64_TB,
